@@ -127,3 +127,55 @@ Proof.
     intros status Hs; unfold run_import_iter, import_spec; cbv -[Z.eqb Z.ltb Z.leb Z.add Z.sub Z.mul Z.opp];
     destruct (status =? 200) eqn:E; try reflexivity; exfalso; lia.
 Qed.
+
+(* ---- AddCache: the cache is registered under exactly that name (the map is created on first use) ---- *)
+Definition addc_prims : prims := fun f args s =>
+  match f, args with
+  | "make", [VStr "type map[string]WalkDumpRestorer"] => Some (VPtr true "new map", s)
+  | _, _ => None
+  end.
+
+Definition run_http_add (has_map : bool) : option (list effect) :=
+  run addc_prims no_fcmp no_loop (fun _ s => Some (eff s)) (fun _ => None) fn_HTTPTransfer_AddCache
+      [VPtr true "t"; VPtr true "name"; VPtr true "c"] [("t.caches", VPtr has_map "caches")] (fun s => Some (eff s)).
+
+Theorem tie_http_add_cache : forall has_map,
+  run_http_add has_map =
+  Some ((if has_map then [] else [("assign t.caches", [VPtr true "new map"])]) ++
+        [("assign t.caches[name]", [VPtr true "c"])])%list.
+Proof. intros [|]; reflexivity. Qed.
+
+(* ---- importCache: the response body (wrapped in a byte counter) is handed to Restore of the cache it was asked for,
+   exactly once; the outcome is only logged (an error does not stop Import: tie_import_iteration) ---- *)
+Definition ic_prims (ok : bool) : prims := fun f args s =>
+  match f, args with
+  | "logger.setup", [_] => Some (VNil, s)
+  | "time.Now", [] => Some (VZ 0, s)
+  | "c.Restore", [VRef r] =>
+      match lookup r (env s) with
+      | Some (VRec "readerCnt" [("r", body)]) =>
+          Some (VTup [VZ 3; if ok then VNil else VPtr true "restore error"], emit "Restore from" [body] s)
+      | _ => None
+      end
+  | "logger.logWarn", _ :: VStr m :: _ => Some (VNil, emit "warn" [VStr m] s)
+  | "logger.logImportant", _ :: VStr m :: _ => Some (VNil, emit "important" [VStr m] s)
+  | "time.Since(start).String", [] => Some (VStr "", s)
+  | "time.Since(start).Seconds", [] => Some (VF (FSym "seconds"), s)
+  | "atomic.LoadInt64", [VRef _] => Some (VZ 0, s)
+  | "float64", [VZ z] => Some (VF (FOfZ z), s)
+  | "fmt.Sprintf", _ => Some (VStr "", s)
+  | _, _ => None
+  end.
+
+Definition run_import_cache (ok warn imp : bool) : option (list effect) :=
+  run (ic_prims ok) no_fcmp no_loop (fun _ s => Some (eff s)) (fun _ => None) fn_HTTPTransfer_importCache
+      [VPtr true "t"; VPtr true "ctx"; VPtr true "c"; VPtr true "resp"]
+      [("t.Logger", VPtr true "logger"); ("resp.Body", VPtr true "body");
+       ("logger.logWarn", VPtr warn "log"); ("logger.logImportant", VPtr imp "log")] (fun s => Some (eff s)).
+
+Theorem tie_import_cache : forall ok warn imp,
+  run_import_cache ok warn imp =
+  Some (("Restore from", [VPtr true "body"]) ::
+        (if ok then (if imp then [("important", [VStr "cache restored"])] else [])
+         else (if warn then [("warn", [VStr "failed to restore cache dump"])] else []))).
+Proof. intros [|] [|] [|]; reflexivity. Qed.
